@@ -23,7 +23,8 @@ ToRes(r) == [ok |-> TRUE, keys |-> {r.keys[k] : k \in 1..Len(r.keys)},
 
 SerReasons(ev) ==
   IF ev.rt # "doc" THEN <<"serialisation-failed-or-not-of-the-wire-shape">>
-  ELSE When(~IsSerialisationOf(ToDoc(ev.doc), out, inn, 1..gn), "document-is-not-a-serialisation-of-the-graph")
+  \* (binding of the wire shape to Serialize(pi): reported as drift - C12 itself only demands the round trip)
+  ELSE When(~IsSerialisationOf(ToDoc(ev.doc), out, inn, 1..gn), "drift:document-is-not-Serialize(graph, pi)")
 
 DeReasons(ev) ==
   IF ev.rt # "graph" THEN <<"deserialising-own-output-failed">>
@@ -32,7 +33,7 @@ DeReasons(ev) ==
        \o When(g2.keys = M /\ \E n \in M : g2.vals[n] # NVal(n), "roundtrip-node-values-differ")
        \o When(Directed /\ \E n \in M : g2.out[n] # out[n], "roundtrip-outgoing-edges-differ")
        \o When(~Directed /\ \E n \in M : ~BagEq(Adj(g2.out, g2.inn, n), Adj(out, inn, n)), "roundtrip-incident-edges-differ")
-       \o When(~Mirror(g2.out, g2.inn), "roundtrip-result-not-mirrored")
+       \o When(~Mirror(g2.out, g2.inn), "drift:roundtrip-result-not-mirrored (C12 speaks of the outgoing / incident edges only; C13 and C01 own this)")
        \o When(ev.hasdoc /\ g2 # Deser(ToDoc(ev.doc)), "drift:result-differs-from-Deser(doc)")
 
 UntrustedReasons(ev) ==
